@@ -70,8 +70,8 @@ class Gauss:
         elif nPg == 6:
             a = 0.445948490915965
             b = 0.091576213509771
-            p1 = 0.11169079483905
-            p2 = 0.0549758718227661
+            p1 = 0.111690794839005
+            p2 = 0.054975871827661
 
             ksis = [b, 1 - 2 * b, b, a, a, 1 - 2 * a]
             etas = [b, b, 1 - 2 * b, 1 - 2 * a, a, a]
